@@ -418,6 +418,8 @@ pub fn cmd_sink_child(args: &[String]) -> i32 {
             }
             w.produce(m, &[]);
             sent += m;
+            writeln!(out, "fed {sent}").unwrap();
+            out.flush().unwrap();
             let before = rs_used(&ws);
             let _ = s.work();
             acked += before - rs_used(&ws);
@@ -463,12 +465,16 @@ pub fn cmd_sink_crash(args: &[String]) -> i32 {
             })
         });
         let mut acked = 0usize;
+        let mut fed = 0usize;
         let mut finished = false;
         let mut so = String::new();
         child.stdout.take().unwrap().read_to_string(&mut so).unwrap();
         for l in so.lines() {
             if let Some(v) = l.strip_prefix("ack ") {
                 acked = v.parse().unwrap_or(acked);
+            }
+            if let Some(v) = l.strip_prefix("fed ") {
+                fed = v.parse().unwrap_or(fed);
             }
             if l == "done" {
                 finished = true;
@@ -488,7 +494,7 @@ pub fn cmd_sink_crash(args: &[String]) -> i32 {
             (4usize, file.len() <= exp.len() && file[..] == exp[..file.len()], exp.len())
         };
         writeln!(o, "{}", json!({"ev": "crash", "packet": packet, "point": c["point"], "k": c["k"], "kill_after_us": c["kill_after_us"].as_u64().unwrap_or(0),
-            "acked": acked, "unit": unit, "file_len": file.len(), "prefix_ok": prefix_ok, "total": whole,
+            "acked": acked, "fed": fed, "unit": unit, "file_len": file.len(), "prefix_ok": prefix_ok, "total": whole,
             "finished": finished, "killed": !status.success()})).unwrap();
         nev += 1;
     }
